@@ -8,12 +8,13 @@ From Morlock.Lemmas Require Export EngineLemmas1 EngineLemmas2 EngineLemmas3 Eng
 Import ListNotations.
 Open Scope N_scope.
 
-(** what [ERel e g] says about the observable state of the engine's game: position, side to move, half-move clock,
+(** what [ERel e g] says about the observable state of the engine's game: position, side to move, half-move clock
+    (the specification's unbounded clock capped at [max_int] = math.MaxInt, where the Go counter saturates),
     full-move number, and the chain of earlier (position, side to move) states used for repetition detection *)
 Theorem ERel_observables e g : ERel e g ->
   let h := e_heap e in let b := e_board e in
   abs_pos (b_position h b) = g_pos g /\ color_of (b_turn b) = g_turn g /\
-  Z.of_N (b_noprogress h b) = g_clock g /\ b_moves b = g_fullmove g /\
+  Z.of_N (b_noprogress h b) = Z.min (g_clock g) (Z.of_N max_int) /\ b_moves b = g_fullmove g /\
   estates (tl (data h b)) (opponent (b_turn b)) = g_past g.
 Proof. intros [Hwf Hrel]. cbv zeta. now apply grel_now. Qed.
 
